@@ -147,6 +147,9 @@ type unitCase struct {
 	Pattern  []int    `json:"caller_sizes"`
 	BufMode  string   `json:"buf_mode"` // zero | stale-meta | aa | reuse
 	FailAt   int      `json:"fail_after_chunks"` // -1 = none
+	Stack     string  `json:"stack,omitempty"`   // e2e: h1-cl | h1-chunked | h1-close | h2 | h3
+	GapMS     int     `json:"gap_ms,omitempty"`  // e2e: pause between segments
+	HighLevel bool    `json:"high_level,omitempty"` // e2e: Client.R().Get + Response.Bytes()
 }
 
 type callObs struct {
@@ -168,6 +171,7 @@ type obs struct {
 	Fatal   string    `json:"fatal,omitempty"`
 	Closed  bool      `json:"closed"`
 	NetSeen [][]byte  `json:"-"` // e2e: the network reads as seen underneath the decoder
+	NetEOFLast bool   `json:"net_eof_with_last"`
 }
 
 var staleMeta = []byte(`<html><head><meta charset="gbk"><title>previous response</title></head><body>stale stale stale `)
